@@ -118,9 +118,37 @@ func buildCLIIfNeeded(classes []sim.Class) {
 	for _, c := range classes {
 		if c.NeedsCLI {
 			buildCLI()
-			return
+			break
 		}
 	}
+	for _, c := range classes {
+		if c.NeedsPIEWorker {
+			buildPIEWorker()
+			break
+		}
+	}
+}
+
+// buildPIEWorker builds the instrumented worker a second time as a position-independent executable (its
+// code and the Go runtime's are loaded at another address on every start) and publishes its path through
+// VERIF_PIE_WORKER: "another binary" for checks that compare what separate processes produce.
+func buildPIEWorker() {
+	t0 := time.Now()
+	out := filepath.Join(scratch, "vworker-instr-pie")
+	copyDir := filepath.Join(scratch, "wazero")
+	if _, err := os.Stat(copyDir); err != nil {
+		instrumentCopy(copyDir)
+	}
+	modfile := filepath.Join(scratch, "go-instr.mod")
+	writeModfile(modfile, copyDir)
+	cmd := exec.Command("go", "build", "-buildvcs=false", "-trimpath", "-buildmode=pie", "-o", out, "-modfile="+modfile, "-tags", "instrumented", "./cmd/vworker")
+	cmd.Dir = filepath.Join(verifDir, "harness")
+	cmd.Env = goEnv()
+	if outb, err := cmd.CombinedOutput(); err != nil {
+		fatal2("building the position-independent worker failed: %v\n%s", err, outb)
+	}
+	os.Setenv("VERIF_PIE_WORKER", out)
+	fmt.Fprintf(os.Stderr, "[vdriver] built position-independent worker in %.1fs\n", time.Since(t0).Seconds())
 }
 
 func writeModfile(path, wazeroDir string) {
